@@ -40,6 +40,8 @@ fn family(name: &str) -> GenCfg {
         aba: false,
         alternate: false,
         late: false,
+        reuse: false,
+        inherit: false,
     };
     match name {
         "mixed" => base,
@@ -78,6 +80,11 @@ fn family(name: &str) -> GenCfg {
         // verification flag): readers, writers, compare_and_swap and rcu callers
         "rwlock" => GenCfg { threads: (2, 4), strategy: 2, w: [6, 4, 4, 2, 5, 4, 4, 3, 2], with_null: true, ..base },
         "rwlockaba" => GenCfg { threads: (2, 3), strategy: 2, aba: true, with_null: false, ..base },
+        // one load per short-lived reader on the fallback path (equal transaction counters), two
+        // containers, a writer on each: a node that changes hands while a helper is inside it
+        "reuse" => GenCfg { threads: (5, 7), containers: 2, strategy: 1, reuse: true, with_null: false, ..base },
+        // a newcomer inherits a node whose eight fast slots are all taken
+        "inherit" => GenCfg { threads: (2, 3), containers: 2, inherit: true, with_null: false, ..base },
         "helpab" => GenCfg { threads: (2, 3), containers: 2, strategy: 1, alternate: true, with_null: false, ..base },
         "xtype" => GenCfg { threads: (3, 4), second_type: true, w: [9, 3, 4, 1, 7, 3, 1, 1, 1], ops: (3, 7), with_null: false, ..base },
         other => panic!("unknown family {}", other),
